@@ -59,6 +59,9 @@ def problems():
                            x0=np.array([-0.5]), bounds=np.array([[-2.0, 2.0]]))
     out["expdrop2"] = dict(f=lambda x: float(np.sum(x + np.exp(-10.0 * x))), g=lambda x: 1.0 - 10.0 * np.exp(-10.0 * x),
                            x0=np.array([-0.5, -0.3]), bounds=np.array([[-2.0, 2.0], [-1.0, 3.0]]))
+    # bounds that single precision cannot represent, reached by the iterates (the minimiser is outside the box)
+    out["tenth3"] = dict(f=lambda x: float(0.5 * np.sum((x - np.array([1.0, 2.0, -3.0])) ** 2)), g=lambda x: x - np.array([1.0, 2.0, -3.0]),
+                         x0=np.zeros(3), bounds=np.array([[-0.7, 0.1], [-0.7, 0.3], [-0.7, 0.1]]))
     # a steep wall whose minimiser sits 5e-6 inside a bound: iterates land very close to the bound without being on it
     out["wall2"] = dict(f=lambda x: float(1e12 * (x[0] - (1.0 + 5e-6)) ** 2 + (x[1] - 0.5) ** 2),
                         g=lambda x: np.array([2e12 * (x[0] - (1.0 + 5e-6)), 2.0 * (x[1] - 0.5)]),
@@ -359,8 +362,14 @@ def _single_one(c, name, p, out):
             if c.get("jac_mode"):
                 jx = dict(jac=None if c["jac_mode"] == "none" else c["jac_mode"])
             ck_before = snap(ck_obj) if ck_obj is not None else None
+            x0_in = ck_obj.x if ck_obj is not None else None
+            if c.get("x0_dtype") and ck_obj is None:
+                # a start vector of another floating-point type (feasible: rounded into the box)
+                x0_in = np.clip(np.asarray(p["x0"], float), p["bounds"][:, 0], p["bounds"][:, 1]).astype(c["x0_dtype"])
+                x0_in = np.where(x0_in < p["bounds"][:, 0], np.nextafter(x0_in, np.array(np.inf, x0_in.dtype)), x0_in)
+                x0_in = np.where(x0_in > p["bounds"][:, 1], np.nextafter(x0_in, np.array(-np.inf, x0_in.dtype)), x0_in).astype(c["x0_dtype"])
             rec = run_once(p, dict(cfg), L=L2, checkpoint=copy.deepcopy(ck_obj) if ck_obj is not None else None,
-                           x0=ck_obj.x if ck_obj is not None else None, callback_kind=cbk, extra=jx)
+                           x0=x0_in, callback_kind=cbk, extra=jx)
             bad = audit(rec, p, c["maxiter"], c["maxfun"], gtol, ftarget=ft, ck=ck, ftarget_callable=c.get("ftarget_kind") == "callable",
                         gtol_callable=c.get("gtol_kind") == "callable", maxcor=cfg["maxcor"], history=history, callable_grad=not c.get("jac_mode"))
             if ck_before is not None and _same_state(ck_before, snap(ck_obj), fields=("x", "fun", "jac", "nfev", "njev", "nit", "sk", "yk"), tol=0.0):
